@@ -156,6 +156,17 @@ def run(ctx):
                     compare(ctx, lk, conn, stmt, select, 'journal')
             if ctx.stop():
                 return
+        # the statements again in another order on the same connection: a statement without FROM after one with FROM
+        # (and the reverse) must still equal its own expansion
+        for frm in [FROMS[5], None, FROMS[1], None, FROMS[7], None]:
+            for stmt, select in (
+                    ("JOURNAL 'Assets:Bank' AT units%s" % (' FROM ' + frm if frm else ''),
+                     "SELECT date, flag, maxwidth(payee, 48), maxwidth(narration, 80), account, units(position), units(balance) %s WHERE account ~ 'Assets:Bank'"
+                     % ('FROM ' + frm if frm else '')),
+                    ('BALANCES AT cost%s' % (' FROM ' + frm if frm else ''),
+                     'SELECT account, sum(cost(position)) %s GROUP BY account, account_sortkey(account) ORDER BY account_sortkey(account)'
+                     % ('FROM ' + frm if frm else ''))):
+                compare(ctx, lk, conn, stmt, select, 'reordered')
         print_layer(ctx, lk, conn, entries, options)
 
 
